@@ -71,8 +71,10 @@ InitWith(c) == /\ conf = c /\ tick = 0 /\ subs = <<>> /\ comms = <<>> /\ checked
 (* Data.  A submission d: [typ, slot, pk, valid, synth, blinded, fam, r, dindex, v, comm, pos, bits, size]:              *)
 (*   typ  the duty type; valid: the signed data has the Go type Submitted expects for that duty                         *)
 (*   proposer: synth (graffiti of a synthetic proposal), blinded                                                        *)
-(*   attester: the single attestation of validator v: data root (slot, dindex, r), committee comm, position pos in it,   *)
-(*             size = length of its own aggregation bits; bits = {pos}                                                  *)
+(*   attester: the single attestation of validator v: data root (slot, dindex, r), committee comm; pos = the seat of v   *)
+(*             in that committee at the duty's slot (a fact of the chain: an Electra single attestation does not carry   *)
+(*             it, validatorapi hands on an EMPTY bitlist; before Electra it is the one bit of its bitlist); size =      *)
+(*             the committee's size; bits = {pos}                                                                       *)
 (*   aggregator: the aggregate: data root, committee comm, bits \subseteq 0..size-1                                       *)
 (*   fam: "el" (Electra, Fulu: committee bits, data.index = 0) or "p0" (Phase0..Deneb: data.index = committee)           *)
 (* An on-chain attestation a: [fam, r, aslot, dindex, cbits (ascending committee indices), bits (set positions of the   *)
